@@ -12,6 +12,7 @@
 EXTENDS Frame
 CONSTANTS Bases,        \* set of base frames (no deviation)
           Contexts,     \* set of <<frames before, frames after>>
+          CtxOk(_, _),  \* which contexts a base frame is put into
           U32Classes, U16Classes, NameClasses,
           Pairs,        \* BOOLEAN: also two-field deviations
           CutDevs       \* BOOLEAN: also cut the deviating frames at their end -1
@@ -45,7 +46,7 @@ Init == c = NoCase /\ dec = NoDec
 Set(cc0) == \E cc \in {cc0} : \E T \in {SOf(cc)} : c' = cc /\ dec' = DecOf(T)
 (* seed -> one "base" state per (base frame, context) -> its cases: lets TLC's workers share the decoding *)
 PickBase == /\ c.kind = "seed"
-            /\ \E f \in Bases, x \in Contexts : c' = Mk("base", x[1], f, x[2], -1) /\ dec' = NoDec
+            /\ \E f \in Bases, x \in Contexts : CtxOk(f, x) /\ c' = Mk("base", x[1], f, x[2], -1) /\ dec' = NoDec
 Pick == /\ c.kind = "base"
         /\ LET f == c.frames[c.pos]
                pre == SubSeq(c.frames, 1, c.pos - 1)
